@@ -15,6 +15,8 @@ import SynthVerif.Props.Interp
   *negative* fraction (`convert(0.999996)` → note 12, fraction −3.99e-6), because the search grid uses a truncated
   83333 µV semitone while the stairstep is `fl(n/12)`; the property's clause "fraction in [0, 1) semitone" is
   therefore false of the code and is not proved — `note_bound` and `fresh_note_le_131` are the parts that hold.
+  `C19Bounds.lean` bounds the failure: the chromatic fraction lies in `[−6·10^-6, 1/12 + 3·10^-6]` V
+  (`chromatic_fraction_bounds`).
 -/
 namespace C19
 open F32 Quantizer
